@@ -5,6 +5,7 @@ var simgoAssumptions = []string{
 	"un-instrumented code (standard library, third-party modules) runs atomically between two scheduling points of its caller",
 	"every schedule the simulator produces is one the Go runtime could produce; the converse is sampled, not enumerated",
 	"kernel pipes are real; their capacity is a per-run knob (F_SETPIPE_SZ), and a write is attempted only when poll(2) reports the descriptor writable",
+	"data races are decided by the simulator's vector-clock happens-before monitor on designated state (fields of the shared structs, maps, designated slice elements, variables captured by function literals), not by the Go race detector, which cannot see a race under a serialising scheduler; undesignated memory is outside what the check sees",
 }
 
 var propCfgs = []*propCfg{
@@ -123,7 +124,7 @@ var propCfgs = []*propCfg{
 		Rule:     "one evaluation = one interpreter used by 2..8 goroutines, each running 1..4 operations (Eval of programs that define fresh globals, refer to other goroutines' globals, read / re-declare / delete five pre-existing globals, import modules m1/m2/failing mbad from a library directory and contain peach / run-parallel / pipelines; Check of similar code; Call of a closure) under one seeded schedule; three oracles: engine verdicts (panic, deadlock, leak), a vector-clock happens-before monitor over designated interpreter state (Evaler fields declared under its mutex, every map of the instrumented packages, and every element of Ns.slots), and linearizability of the evaluations' observable outcomes (which names resolved, compile-time vs run-time failure, values read from re-declared globals, the namespace at the end) against the model 'global name -> value' (porcupine) plus 'a successfully imported module body runs once', 'a failing module is never imported successfully', 'no published definition is missing at the end' and 'a variable that resolved at compile time does not vanish at run time'; distinct = distinct interleaving signature; non-trivial = at least one scheduling choice",
 		Real:     []string{"pkg/eval Evaler.Eval/Call/Check/CheckTree/ExtendGlobal, compile, use/useFromFile/evalModule, peach, run-parallel, pipelines, vars.PtrVar"},
 		Stub:     []string{"harness builtin vtick (import-time side effect recorder)"},
-		Assumptions: append([]string{"the race detector cannot be used under a serialising scheduler; data races are decided by the simulator's own happens-before monitor, on designated state only (all other memory is outside what this check sees)", "synchronisation invisible to the instrumentation could only add order; the designated state is not protected by un-instrumented primitives"}, simgoAssumptions...),
+		Assumptions: append([]string{"the race detector cannot be used under a serialising scheduler; data races are decided by the simulator's own happens-before monitor, on designated state only: all fields of the shared structs of the instrumented packages, all their maps, Ns.slots / Frame.ports elements and captured variables of function literals (all other memory is outside what this check sees)", "synchronisation invisible to the instrumentation could only add order; the designated state is not protected by un-instrumented primitives"}, simgoAssumptions...),
 	},
 	{
 		ID: "C44", Level: "exploration", SimEngine: "simgo",
